@@ -145,14 +145,15 @@ def run(run, tier):
     # 0. corpus of minimised past failures
     corpus = [L.case_from_json(j) for j in C.load_corpus(PID)]
     # 1. random stream (walks chosen by the model), 4% malformed
-    nrand = 1500 if tier == 'quick' else 25000
+    nrand = 4000 if tier == 'quick' else 40000
     cases = list(corpus); modes = ['D %d %s' % (len(j.get('draws', [])), R.qtoks([F(x) for x in j.get('draws', [])])) for j in C.load_corpus(PID)]
     for i in range(nrand):
         cases.append(L.gen_case(rng, malformed=(i % 25 == 7))); modes.append('W ' + R.ent_tokens(rng))
     SC.run_cases(L, EoN, sim, cases, modes, oracle=L.oracle_rates, nontrivial=nontrivial, res=res, label='random')
     # 2. every path of the sampler program on every small graph
     small = L.small_cases(rng, 3 if tier == 'quick' else 4, directed=False)
-    small += L.small_cases(rng, 2 if tier == 'quick' else 3, directed=True, kinds=('threshold', 'sir', 'cascade', 'table'))
+    small += L.small_cases(rng, 2, directed=True)
+    small += [c for c in L.small_cases(rng, 3, directed=True, kinds=('threshold', 'sir', 'cascade', 'table')) if len(c['gc'].order) == 3 and (tier != 'quick' or rng.random() < .25)]
     delays = [F(1, 2)] if tier == 'quick' else [F(1, 2), F(5, 4)]
     amode = 'A 16 %d %d %s' % (300 if tier == 'quick' else 250, len(delays), R.qtoks(delays))
     SC.run_cases(L, EoN, sim, small, [amode] * len(small), oracle=L.oracle_rates, nontrivial=nontrivial, res=res, label='exhaustive_paths')
@@ -171,9 +172,9 @@ def run(run, tier):
                      'weights incl. 0, families %s + arbitrary rate/choice/influence TABLES on <=4 nodes with the minimal covering influence set, return_statuses '
                      'permuted/partial/with an absent status, dict and defaultdict IC, tmin in {0,5/2,-3/2,..}, finite and infinite tmax, 25%% full data, 4%% malformed (IC lacks a node), '
                      '~8%% non-covering influence sets for the model<->code tie only); exhaustive: every sampler path (every candidate of every choose_random, delays %s, <=16 draws) on every '
-                     'labelled graph with <=%d nodes (directed <=%d) x every S/I initial assignment x 6 model kinds. Compared: every call to the random source with its arguments, '
+                     'labelled graph with <=%d nodes (directed <=%d, a quarter of the 3-node digraphs in the quick tier) x every S/I initial assignment x 4-6 model kinds. Compared: every call to the random source with its arguments, '
                      'rows, histories, every user-callback call with the statuses it saw. Oracle: rates recomputed from scratch on the implementation\'s own trace. '
-                     'Non-trivial = at least one event.' % (nrand, ', '.join(L.FAMILIES), [str(d) for d in delays], 3 if tier == 'quick' else 4, 2 if tier == 'quick' else 3),
+                     'Non-trivial = at least one event.' % (nrand, ', '.join(L.FAMILIES), [str(d) for d in delays], 3 if tier == 'quick' else 4, 3),
                      res.samples, {'distribution': dist, 'families': fams, 'mismatches': len(res.mism), 'oracle_failures': len(res.oracle_bad),
                                    'float_residue_search': {'tables_x_orders_tried': tried, 'failing': len(hits), 'first': residue},
                                    'exhaustive_part': 'all sampler paths on all graphs <=%d nodes' % (3 if tier == 'quick' else 4)})
